@@ -1,4 +1,4 @@
-from vf2.spec import *
+from vf.spec import *
 JD = ListT(INT, tagged=True); JDD = DictT(JD, REAL); LJD = ListT(JD); LR = ListT(REAL)
 def build(reg):
     reg.type("JD", JD)
